@@ -65,19 +65,35 @@ class FakeFrame:
 
 
 class FakeTrajectory:
-    """Duck-typed stand-in for gsd.hoomd.HOOMDTrajectory (indexing, iteration, len)."""
+    """Duck-typed stand-in for gsd.hoomd.HOOMDTrajectory (indexing, iteration, len).
 
-    def __init__(self, frames):
+    peer_fault = (n, exception type name): the n-th frame fetch (indexing and iteration both
+    count) fails once, the way a read from a failing disk or a Ctrl-C inside the peer would."""
+
+    def __init__(self, frames, peer_fault=None):
         self._frames = frames
+        self._fault = peer_fault
+        self._fetches = 0
+        self.fired = False
 
     def __len__(self):
         return len(self._frames)
 
-    def __getitem__(self, i):
+    def _fetch(self, i):
+        self._fetches += 1
+        if self._fault and not self.fired and self._fetches == self._fault[0]:
+            self.fired = True
+            if self._fault[1] == "KeyboardInterrupt":
+                raise simio.SimInterrupt("simulated cancellation inside the peer's frame fetch")
+            raise OSError(5, "simulated I/O error inside the peer's frame fetch")
         return self._frames[i]
 
+    def __getitem__(self, i):
+        return self._fetch(i)
+
     def __iter__(self):
-        return iter(self._frames)
+        for i in range(len(self._frames)):
+            yield self._fetch(i)
 
 
 class FakeDCD:
@@ -125,6 +141,14 @@ def make_hoomd(recipe):
     return frames, xyz, lengths
 
 
+CHATTER_UNICODE = (
+    'print "σ = 3.4 Å, ε/k_B = 120 K"',
+    "# Daten aus /home/müller/läufe/T=0.45 — zweiter Versuch",
+    "  units: kcal/mol·Å²",
+    "variable β equal 1.0/0.45",
+)
+
+
 def make_log(recipe):
     """-> (text, sections) ; sections: list of dict(header tokens, rows (list of token lists),
     start/end byte offsets of the header line and of the 'Loop time' line)."""
@@ -133,9 +157,12 @@ def make_log(recipe):
     lines = []
     sections = []
 
+    eol = "\r\n" if recipe.get("crlf") else "\n"
+    pool = CHATTER + CHATTER_UNICODE if recipe.get("unicode") else CHATTER
+
     def chatter(k):
         for _ in range(k):
-            lines.append(CHATTER[int(rng.integers(0, len(CHATTER)))])
+            lines.append(pool[int(rng.integers(0, len(pool)))])
 
     chatter(int(rng.integers(0, 4)))
     step = 0
@@ -168,18 +195,18 @@ def make_log(recipe):
                      f"for {nrows} steps with {int(rng.integers(10, 5000))} atoms")
         sections.append({"cols": cols, "rows": rows, "hdr_line": hdr_line, "loop_line": loop_line})
         chatter(int(rng.integers(0, 4)))
-    text = "\n".join(lines) + "\n"
+    text = eol.join(lines) + eol
     if recipe["tail"] == "partial-row" and sections and sections[-1]["loop_line"] is None:
-        text = text[:-1 - int(rng.integers(0, 3))]      # last row cut short, no newline
-    # byte offsets
+        text = text[:-len(eol) - int(rng.integers(0, 3))]      # last row cut short, no newline
+    # character offsets (cuts are made between characters, never inside a multi-byte one)
     offs = [0]
     for ln in lines:
-        offs.append(offs[-1] + len(ln) + 1)
+        offs.append(offs[-1] + len(ln) + len(eol))
     for sec in sections:
-        sec["hdr_off"] = (offs[sec["hdr_line"]], offs[sec["hdr_line"] + 1] - 1)
+        sec["hdr_off"] = (offs[sec["hdr_line"]], offs[sec["hdr_line"] + 1] - len(eol))
         if sec["loop_line"] is not None:
-            sec["loop_off"] = (offs[sec["loop_line"]], offs[sec["loop_line"] + 1] - 1)
-        sec["rows_off"] = [(offs[sec["hdr_line"] + 1 + i], offs[sec["hdr_line"] + 2 + i] - 1) for i in range(len(sec["rows"]))]
+            sec["loop_off"] = (offs[sec["loop_line"]], offs[sec["loop_line"] + 1] - len(eol))
+        sec["rows_off"] = [(offs[sec["hdr_line"] + 1 + i], offs[sec["hdr_line"] + 2 + i] - len(eol)) for i in range(len(sec["rows"]))]
     return text, sections
 
 
@@ -362,7 +389,10 @@ class World(WorldBase):
 
     def gen_hoomd(self, rng):
         dcd = rng.random() < 0.5
-        return {"op": "hoomd", "dcd": dcd, "times": rng.choice([1, 1, 2, 3]), "recipe": self._hoomd_recipe(rng, dcd)}
+        op = {"op": "hoomd", "dcd": dcd, "times": rng.choice([1, 1, 2, 3]), "recipe": self._hoomd_recipe(rng, dcd)}
+        if self.swarm["faults"] and rng.random() < 0.5:
+            op["peer_fault"] = {"fetch": rng.randint(1, op["recipe"]["T"] + 1), "exc": rng.choice(["OSError", "KeyboardInterrupt"])}
+        return op
 
     def _hoomd_recipe(self, rng, dcd):
         return {"ndim": rng.choice([2, 3]), "N": rng.randint(1, 10), "T": rng.randint(1, 5),
@@ -386,7 +416,8 @@ class World(WorldBase):
         return {"op": "write_log", "path": rng.choice(LOGS),
                 "recipe": {"nsec": rng.randint(0, 4), "maxrows": rng.choice([2, 6]),
                            "tail": rng.choice(["none", "none", "full-rows", "partial-row"]),
-                           "nonfinite": rng.random() < 0.3, "subseed": rng.randrange(1 << 40)}}
+                           "nonfinite": rng.random() < 0.3, "unicode": rng.random() < 0.3, "crlf": rng.random() < 0.15,
+                           "subseed": rng.randrange(1 << 40)}}
 
     def gen_read_log(self, rng):
         return {"op": "read_log", "path": rng.choice(sorted(self.logs))}
@@ -692,9 +723,10 @@ class World(WorldBase):
         frames, xyz, lengths = make_hoomd(r)
         pristine, xyz0, _l = make_hoomd(r)        # what the peer holds, untouched by the converters
         ndim = r["ndim"]
-        traj = FakeTrajectory(frames)
+        pf = op.get("peer_fault")
+        traj = FakeTrajectory(frames, (pf["fetch"], pf["exc"]) if pf else None)
         tag = "gsd-dcd" if op["dcd"] else "gsd"
-        for k in range(op.get("times", 1)):
+        for k in range(op.get("times", 1) + (1 if pf else 0)):
             # the client converts the same open trajectory again (k > 0): same answer expected
             if op["dcd"]:
                 dcd = FakeDCD(xyz, lengths)
@@ -703,6 +735,12 @@ class World(WorldBase):
                 res, exc, _ = self.call(lambda: read_gsd(traj, ndim))
             if exc is not None:
                 self.drop_last()
+                if pf and traj.fired and k == 0 and exc[0] in ("OSError", "SimInterrupt"):
+                    # the peer failed while a frame was fetched: this conversion may fail (it must
+                    # not return something else than the whole trajectory); the next one is judged
+                    self.ctx.faults_fired["peer_fetch_" + pf["exc"]] = self.ctx.faults_fired.get("peer_fetch_" + pf["exc"], 0) + 1
+                    self.ctx.probe("conversion_failed_by_peer_fault")
+                    continue
                 raise Violation(f"C19/{tag}-raised:hoomd", f"{exc[0]}: {exc[1]}")
             self._judge_hoomd(res, pristine, xyz0, ndim, op["dcd"], tag)
             if k:
@@ -755,7 +793,7 @@ class World(WorldBase):
 
     def do_write_log(self, op):
         text, sections = make_log(op["recipe"])
-        with simio.real_open(op["path"], "w", encoding="utf-8") as f:
+        with simio.real_open(op["path"], "w", encoding="utf-8", newline="") as f:
             f.write(text)
         self.logs[op["path"]] = {"text": text, "sections": sections}
         return f"{op['path']} sections={len(sections)} bytes={len(text)}"
@@ -809,7 +847,7 @@ class World(WorldBase):
         cutpath = "cut_" + op["path"]
         nreq = 0
         for c in cuts:
-            with simio.real_open(cutpath, "w", encoding="utf-8") as f:
+            with simio.real_open(cutpath, "w", encoding="utf-8", newline="") as f:
                 f.write(text[:c])
             required = [s for s in secs if s["loop_line"] is not None and s["loop_off"][1] <= c]
             cls = cut_class(secs, c, total)
